@@ -584,6 +584,19 @@ def rule_noise_factor(ctx: Ctx) -> None:
         uses = [x for st in b.body for x in ast.walk(st) if isinstance(x, ast.Subscript) and norm(x.value) == FACT]
         lists = [x for st in b.body for x in ast.walk(st) if isinstance(x, ast.Assign) and isinstance(x.value, ast.List) and len(x.value.elts) == 4]
         first_id = all("identity" in norm(l.value.elts[0]) for l in lists) and bool(lists)
+        # the four per-qubit error operations must be the four Paulis, identity first (X, Y, Z share one weight, so their order is free)
+        paulis = _branch_paulis(repo, m, b, lists)
+        if paulis is not None:
+            what, names = paulis
+            if names[0] == "I" and sorted(names) == ["I", "X", "Y", "Z"]:
+                ctx.ok("noise.pauli-set", m, b.node, what=f"{what}: {names}")
+                first_id = True
+            else:
+                ctx.fail("noise.pauli-set", m, b.node,
+                         f"the per-qubit error operations of this DepolarizingNoise branch ({what}) denote {names}; they must be I first and then X, Y, Z "
+                         f"in some order ('?' = not the action of any Pauli): the depolarizing channel mixes the state with exactly those four",
+                         func="DepolarizingNoise.apply", construct=f"DepolarizingNoise: Pauli set {names}")
+                continue
         if uses and first_id:
             ctx.ok("sibling.noise-factor", m, b.node, what="branch uses the shared factors, identity first")
         else:
@@ -592,6 +605,43 @@ def rule_noise_factor(ctx: Ctx) -> None:
                      "backends would disagree on the no-error weight", func="DepolarizingNoise.apply",
                      construct=f"DepolarizingNoise: branch {short(b.test, 40) if b.test is not None else 'else'}")
 
+
+
+def _branch_paulis(repo, m, b, lists):
+    """(description, [Pauli letter or '?'] * 4) of the per-qubit operations a DepolarizingNoise branch iterates over, or None."""
+    from .. import clifford as cl
+    from . import gatesum, bitform
+    keys = {cl.key(cl.I2): "I", cl.key(cl.X): "X", cl.key(cl.Y): "Y", cl.key(cl.Z): "Z"}
+    if lists:
+        out = []
+        for e in lists[0].value.elts:
+            try:
+                if isinstance(e, ast.Call):
+                    mat = gatesum.dm_matrix_of(repo, e, m)
+                    out.append(keys.get(cl.key(mat), "?") if mat is not None else "?")
+                else:
+                    name = (norm(e)).split(".")[-1]
+                    if name == "identity":
+                        out.append("I")
+                        continue
+                    sm = gatesum.summarise_or_none(repo, name)
+                    out.append(keys.get(cl.key(sm[1]), "?") if sm is not None and sm[0] == "1" else "?")
+            except (AnalysisError, ValueError, KeyError, gatesum.Unsummarisable):
+                out.append("?")
+        return (f"list `{norm(lists[0].targets[0])}`", out)
+    # sign-mask form: a helper returning, per qubit, the rows each error negates
+    helpers = bitform._helper_semantics(repo)
+    for st in b.body:
+        for c in [x for x in ast.walk(st) if isinstance(x, ast.Call) and isinstance(x.func, ast.Name)]:
+            hf = m.find(c.func.id)
+            if isinstance(hf, ast.FunctionDef):
+                try:
+                    q, masks = bitform.mask_list(hf, helpers)
+                except (bitform.Unmodelled, KeyError):
+                    continue
+                if len(masks) == 4:
+                    return (f"sign masks of `{hf.name}`", [bitform.pauli_of_mask(p, q) or "?" for p in masks])
+    return None
 
 
 # --------------------------------------------------------------------------- stale read inside a temporary swap
